@@ -14,7 +14,9 @@ import os
 import common
 import tlc
 
-TIERS = {"quick": dict(L=3), "thorough": dict(L=5)}
+# L: components per name for the resolution check (get_native_path stays below the root, equals the model's path);
+# Lops: up to that many components every one of the 14 groups of operations is also executed in the jail
+TIERS = {"quick": dict(L=4, Lops=3), "thorough": dict(L=6, Lops=4)}
 
 
 def run(prop, tier, seed):
@@ -33,7 +35,7 @@ def run(prop, tier, seed):
     gpath = os.path.join(c.work, "graph.json")
     with open(gpath, "w") as f:
         json.dump({"edges": edges, "sibdepth": sibdepth}, f)
-    out = json.loads(common.run_bin("fs", ["paths", gpath, t["L"]], timeout=7200))
+    out = json.loads(common.run_bin("fs", ["paths", gpath, t["L"], t["Lops"]], timeout=14400))
     c.coverage = {
         "states": r.distinct, "transitions": r.generated,
         "traces_validated_against_impl": out["names"],
